@@ -205,7 +205,11 @@ def check_case(ctx, case):
                             bend_deg = abs(math.degrees((arrive.angle >> Angular.Radian) - (look + h2))) if arrive is not None else 0.0
                             if ratio is not None and ratio <= 1.0 and (bend_deg > 2.0 or hold_deg > 3.0):
                                 key = "C02.iteration-cap"
-                        except (pb.ZeroFindingError, pb.RangeError):
+                        except pb.ZeroFindingError as e10:
+                            # still converging, only slowly: the error shrank at least 100-fold over the extra rounds
+                            if e10.zero_finding_error * 100 <= err.zero_finding_error and hold_deg > 3.0:
+                                key = "C02.iteration-cap"
+                        except pb.RangeError:
                             pass
                 ctx.violation(key, what, case, error=type(err).__name__, hold_over_deg=sol[0] - look_deg)
             else:
